@@ -28,6 +28,7 @@ type oaProgram struct {
 	Types      map[string]string `json:"types"`
 	Variations []string          `json:"variations,omitempty"` // root-level instance texts the rules accept (besides the example)
 	Tags       []string          `json:"tags,omitempty"`
+	Warm       []string          `json:"warm,omitempty"` // call prefix (SchemaApi_orders) after which a second object is converted
 }
 
 type oaLine struct {
@@ -72,6 +73,35 @@ func oaConvert(p oaProgram) (*oaLine, []core.Finding, bool) {
 		b, err := openapi.NewSchemaObject(s).MarshalJSON()
 		if err != nil {
 			return []core.Finding{{Class: "openapi:conversion-error:" + p.Family, What: fmt.Sprintf("accepted schema %q: OpenAPI conversion = %v", p.Root, firstLineOf(err))}}
+		}
+		// SchemaApi.tla: a conversion is a function of the text and the registrations. The same object converted
+		// again, and a second object that has answered other calls before, give the same bytes; the AST and the
+		// example are what they were before the conversion.
+		ast0, _ := s.GetAST()
+		astBefore, _ := json.Marshal(ast0)
+		if b2, err2 := openapi.NewSchemaObject(s).MarshalJSON(); err2 != nil || string(b2) != string(b) {
+			fs = append(fs, core.Finding{Class: "openapi:second-conversion-differs:" + p.Family, What: fmt.Sprintf("accepted schema %q: converted twice, first %.300q then %.300q %v", p.Root, b, b2, err2)})
+		}
+		ast1, _ := s.GetAST()
+		astAfter, _ := json.Marshal(ast1)
+		if string(astBefore) != string(astAfter) {
+			fs = append(fs, core.Finding{Class: "openapi:conversion-changes-ast:" + p.Family, What: fmt.Sprintf("accepted schema %q: GetAST() before the conversions %.300q, after %.300q", p.Root, astBefore, astAfter)})
+		}
+		if ex2, err2 := s.Example(); err2 != nil || string(ex2) != string(ex) {
+			fs = append(fs, core.Finding{Class: "openapi:conversion-changes-example:" + p.Family, What: fmt.Sprintf("accepted schema %q: Example() before the conversions %q, after %q %v", p.Root, ex, ex2, err2)})
+		}
+		if len(p.Warm) > 0 {
+			s2 := jschema.New("root", p.Root)
+			for n, t := range p.Types {
+				_ = s2.AddType(n, jschema.New(n, t))
+			}
+			if pn := warmUp(s2, p.Warm); pn != "" {
+				fs = append(fs, core.Finding{Class: "openapi:panic:" + p.Family, What: fmt.Sprintf("accepted schema %q: panic %s during %v", p.Root, pn, p.Warm)})
+			} else if s2.Check() == nil {
+				if b3, err3 := openapi.NewSchemaObject(s2).MarshalJSON(); err3 != nil || string(b3) != string(b) {
+					fs = append(fs, core.Finding{Class: "openapi:conversion-depends-on-earlier-calls:" + p.Family, What: fmt.Sprintf("accepted schema %q: after the calls %v the conversion is %.300q %v, on a fresh object %.300q", p.Root, p.Warm, b3, err3, b)})
+				}
+			}
 		}
 		line := &oaLine{ID: p.ID, Schema: string(b), Components: map[string]string{}, Instances: append([]string{string(ex)}, p.Variations...)}
 		for n, ts := range typeObjs {
@@ -274,7 +304,8 @@ func runC08(c *core.Ctx) error {
 		}
 		c.AddTLC("SchemaModelExtra.cfg", res)
 		for i, cs := range extra {
-			if cs.Expect != "accept" || (i+int(c.Seed))%c.Pick(6, 1) != 0 {
+			// "unknown" verdicts (the `or` vocabulary family) are converted whenever the library accepts them
+			if cs.Expect == "reject" || (i+int(c.Seed))%c.Pick(6, 1) != 0 {
 				continue
 			}
 			types := map[string]string{}
@@ -300,7 +331,7 @@ func runC08(c *core.Ctx) error {
 	// (4) accepted inheritance projects
 	{
 		cfg := "AllOf_2.cfg"
-		body := "SPECIFICATION Spec\nCONSTANTS\n  N = 2\n  KeySet = {\"k1\", \"k2\"}\n  MaxList = 2\n  APs = {\"absent\", \"false\", \"true\"}\nINVARIANTS Emit\nCHECK_DEADLOCK FALSE\n"
+		body := "SPECIFICATION Spec\nCONSTANTS\n  N = 2\n  KeySet = {\"k1\", \"k2\"}\n  MaxList = 2\n  APs = {\"absent\", \"false\", \"true\"}\n  Nest = FALSE\nINVARIANTS Emit\nCHECK_DEADLOCK FALSE\n"
 		kv := map[string]string{"k1": "1", "k2": `"two"`, "k3": "true"}
 		n := 0
 		res, err := tlc.Run(tlc.Opts{Module: "AllOf", Cfg: cfg, Workers: 16, Timeout: 0, HeapGB: 16, Files: map[string][]byte{cfg: []byte(body)}, OnLine: func(l string) {
@@ -363,6 +394,12 @@ func runC08(c *core.Ctx) error {
 		c.AddTLC("RefPositions_quick.cfg", res)
 	}
 	c.Set("programs", len(progs))
+	if _, err := loadCallOrders(); err != nil {
+		return err
+	}
+	for i := range progs {
+		progs[i].Warm = callPrefix(i, c.Seed)
+	}
 	lines := make([]*oaLine, len(progs))
 	skipped := make([]bool, len(progs))
 	core.ParallelFor(len(progs), func(i int) {
